@@ -1,8 +1,530 @@
-//! C15 observations (see props/c15.py for the consumer).
+//! C15 observations: the REAL `rayon::iter::plumbing::Producer::split_at` of ParIterator1D / ParIterator2D driven along explicit
+//! binary split trees (the producer is obtained through `with_producer`), and end-to-end runs of the parallel call sites on
+//! rayon pools of 1..16 threads.  Consumer: props/c15.py.   usage: vharness c15 <seed> <n> [trees|pools|nested|all]
 #![allow(unused_imports, dead_code)]
 use crate::common::*;
-use serde_json::json;
+use rayon::iter::plumbing::{Producer, ProducerCallback};
+use rayon::iter::{IndexedParallelIterator, IntoParallelIterator, ParallelIterator};
+use serde_json::{json, Value};
+use spdcalc::dim::ucum::{M, RAD, S};
+use spdcalc::dim::Dimensioned;
+use spdcalc::jsa::{FrequencySpace, IntoSignalIdlerIterator, SumDiffFrequencySpace, WavelengthSpace};
+use spdcalc::math::Integrator;
+use spdcalc::utils::{Steps, Steps2D};
+use spdcalc::{Complex, Frequency, SPDC};
+use std::sync::mpsc;
+use std::time::Duration;
 
-pub fn run(_args: &[String]) {
-  emit(json!({"kind": "not_implemented", "property": "C15"}));
+#[derive(Clone, Debug)]
+pub enum Tree {
+  Leaf,
+  Node(usize, Box<Tree>, Box<Tree>),
+}
+
+impl Tree {
+  fn enc(&self, s: &mut String) {
+    match self {
+      Tree::Leaf => s.push('L'),
+      Tree::Node(k, l, r) => {
+        s.push('N');
+        s.push_str(&k.to_string());
+        s.push('(');
+        l.enc(s);
+        s.push(',');
+        r.enc(s);
+        s.push(')');
+      }
+    }
+  }
+  fn encode(&self) -> String {
+    let mut s = String::new();
+    self.enc(&mut s);
+    s
+  }
+}
+
+/// every tree whose splits are proper (1 <= k <= len-1) on a producer of length `len`
+fn all_trees(len: usize, memo: &mut Vec<Option<Vec<Tree>>>) -> Vec<Tree> {
+  if let Some(Some(v)) = memo.get(len) {
+    return v.clone();
+  }
+  let mut out = vec![Tree::Leaf];
+  for k in 1..len {
+    let ls = all_trees(k, memo);
+    let rs = all_trees(len - k, memo);
+    for l in &ls {
+      for r in &rs {
+        out.push(Tree::Node(k, Box::new(l.clone()), Box::new(r.clone())));
+      }
+    }
+  }
+  while memo.len() <= len {
+    memo.push(None);
+  }
+  memo[len] = Some(out.clone());
+  out
+}
+
+/// random tree; `edge` allows the degenerate split points (0 / len) where the producer admits them
+fn random_tree(rng: &mut Rng, len: usize, depth: usize, lo: usize, allow_full: bool) -> Tree {
+  if depth == 0 || len < lo.max(1) || (len < 2 && !allow_full) || rng.below(6) == 0 {
+    return Tree::Leaf;
+  }
+  let hi = if allow_full { len } else { len - 1 };
+  if hi < lo {
+    return Tree::Leaf;
+  }
+  let k = match rng.below(6) {
+    0 => lo,
+    1 => hi,
+    2 => (len / 2).clamp(lo, hi),
+    3 => (lo + 1).min(hi),
+    _ => lo + rng.below(hi - lo + 1),
+  };
+  Tree::Node(k, Box::new(random_tree(rng, k, depth - 1, lo, allow_full)), Box::new(random_tree(rng, len - k, depth - 1, lo, allow_full)))
+}
+
+/// the tree rayon's bridge builds for `threads` workers when no job is stolen: halve while the split budget lasts
+fn rayon_like(len: usize, splits: usize) -> Tree {
+  if splits == 0 || len / 2 < 1 {
+    return Tree::Leaf;
+  }
+  let mid = len / 2;
+  Tree::Node(mid, Box::new(rayon_like(mid, splits / 2)), Box::new(rayon_like(len - mid, splits / 2)))
+}
+
+pub struct LeafOut<T> {
+  pub items: Vec<T>,
+  pub len_reported: usize,
+}
+
+struct Drive<'a> {
+  tree: &'a Tree,
+  back: bool,
+  /// call ExactSizeIterator::len() on the leaf iterator (not on adaptor iterators such as enumerate's Zip, whose default
+  /// len() asserts an exact size_hint, which Iterator1D/2D do not provide)
+  ask_len: bool,
+}
+
+fn walk<P: Producer>(t: &Tree, p: P, back: bool, ask_len: bool, out: &mut Vec<LeafOut<P::Item>>) {
+  match t {
+    Tree::Leaf => {
+      let it = p.into_iter();
+      let len_reported = if ask_len { it.len() } else { 0 };
+      let items: Vec<P::Item> = if back {
+        let mut v: Vec<P::Item> = it.rev().collect();
+        v.reverse();
+        v
+      } else {
+        it.collect()
+      };
+      out.push(LeafOut { items, len_reported });
+    }
+    Tree::Node(k, l, r) => {
+      let (a, b) = p.split_at(*k);
+      walk(l, a, back, ask_len, out);
+      walk(r, b, back, ask_len, out);
+    }
+  }
+}
+
+impl<'a, T: Send> ProducerCallback<T> for Drive<'a> {
+  type Output = Vec<LeafOut<T>>;
+  fn callback<P: Producer<Item = T>>(self, producer: P) -> Self::Output {
+    let mut out = vec![];
+    walk(self.tree, producer, self.back, self.ask_len, &mut out);
+    out
+  }
+}
+
+fn drive1d(s: f64, e: f64, n: usize, t: &Tree, back: bool) -> Result<Vec<LeafOut<f64>>, String> {
+  let t = t.clone();
+  guarded(move || Steps(s, e, n).into_par_iter().with_producer(Drive { tree: &t, back, ask_len: true }))
+}
+fn drive1d_enum(s: f64, e: f64, n: usize, t: &Tree) -> Result<Vec<LeafOut<(usize, f64)>>, String> {
+  let t = t.clone();
+  guarded(move || Steps(s, e, n).into_par_iter().enumerate().with_producer(Drive { tree: &t, back: false, ask_len: false }))
+}
+fn drive2d(x: (f64, f64, usize), y: (f64, f64, usize), t: &Tree, back: bool) -> Result<Vec<LeafOut<(f64, f64)>>, String> {
+  let t = t.clone();
+  guarded(move || Steps2D(x, y).into_par_iter().with_producer(Drive { tree: &t, back, ask_len: true }))
+}
+fn drive2d_enum(x: (f64, f64, usize), y: (f64, f64, usize), t: &Tree) -> Result<Vec<LeafOut<(usize, (f64, f64))>>, String> {
+  let t = t.clone();
+  guarded(move || Steps2D(x, y).into_par_iter().enumerate().with_producer(Drive { tree: &t, back: false, ask_len: false }))
+}
+
+fn emit_tree1d(root: usize, s: f64, e: f64, n: usize, t: &Tree, back: bool, with_enum: bool) {
+  let mut o = json!({"kind": "tree1d", "root": root, "tree": t.encode(), "back": back});
+  match drive1d(s, e, n, t, back) {
+    Ok(leaves) => {
+      let lens: Vec<usize> = leaves.iter().map(|l| l.items.len()).collect();
+      let reported: Vec<usize> = leaves.iter().map(|l| l.len_reported).collect();
+      let vals: Vec<f64> = leaves.iter().flat_map(|l| l.items.iter().cloned()).collect();
+      o["lens"] = json!(lens);
+      o["reported"] = json!(reported);
+      o["vals"] = fxs(&vals);
+    }
+    Err(m) => o["panic"] = json!(m),
+  }
+  if with_enum {
+    match drive1d_enum(s, e, n, t) {
+      Ok(leaves) => {
+        let idx: Vec<usize> = leaves.iter().flat_map(|l| l.items.iter().map(|p| p.0)).collect();
+        let vals: Vec<f64> = leaves.iter().flat_map(|l| l.items.iter().map(|p| p.1)).collect();
+        o["enum_idx"] = json!(idx);
+        o["enum_vals"] = fxs(&vals);
+      }
+      Err(m) => o["enum_panic"] = json!(m),
+    }
+  }
+  emit(o);
+}
+
+fn flat(p: &[(f64, f64)]) -> Value {
+  let mut v = Vec::with_capacity(2 * p.len());
+  for (x, y) in p {
+    v.push(fx(*x));
+    v.push(fx(*y));
+  }
+  Value::Array(v)
+}
+
+fn emit_tree2d(root: usize, x: (f64, f64, usize), y: (f64, f64, usize), t: &Tree, back: bool, with_enum: bool, seq: &[(f64, f64)], full: bool) {
+  let mut o = json!({"kind": "tree2d", "root": root, "tree": t.encode(), "back": back});
+  match drive2d(x, y, t, back) {
+    Ok(leaves) => {
+      let lens: Vec<usize> = leaves.iter().map(|l| l.items.len()).collect();
+      let reported: Vec<usize> = leaves.iter().map(|l| l.len_reported).collect();
+      let vals: Vec<(f64, f64)> = leaves.iter().flat_map(|l| l.items.iter().cloned()).collect();
+      o["lens"] = json!(lens);
+      o["reported"] = json!(reported);
+      if full {
+        o["vals"] = flat(&vals);
+      } else {
+        // long grids: positions whose bits differ from the sequential traversal (expected: none)
+        let mut diff = vec![];
+        for i in 0..vals.len().max(seq.len()) {
+          let same = i < vals.len() && i < seq.len() && vals[i].0.to_bits() == seq[i].0.to_bits() && vals[i].1.to_bits() == seq[i].1.to_bits();
+          if !same && diff.len() < 8 {
+            diff.push(i);
+          }
+        }
+        o["total"] = json!(vals.len());
+        o["diff_positions"] = json!(diff);
+      }
+    }
+    Err(m) => o["panic"] = json!(m),
+  }
+  if with_enum {
+    match drive2d_enum(x, y, t) {
+      Ok(leaves) => {
+        let idx: Vec<usize> = leaves.iter().flat_map(|l| l.items.iter().map(|p| p.0)).collect();
+        let ok = idx.iter().enumerate().all(|(i, k)| i == *k);
+        let vals_same = leaves.iter().flat_map(|l| l.items.iter()).enumerate().all(|(i, p)| i < seq.len() && p.1 .0.to_bits() == seq[i].0.to_bits() && p.1 .1.to_bits() == seq[i].1.to_bits());
+        o["enum_total"] = json!(idx.len());
+        o["enum_idx_ok"] = json!(ok);
+        o["enum_vals_same"] = json!(vals_same);
+      }
+      Err(m) => o["enum_panic"] = json!(m),
+    }
+  }
+  emit(o);
+}
+
+fn roots1d(rng: &mut Rng, k: usize) -> (f64, f64, &'static str) {
+  match k % 5 {
+    0 => {
+      // dyadic: exact in binary64 when n-1 is a power of two (and close to exact otherwise)
+      (((rng.below(64) as f64) - 32.), ((rng.below(64) as f64) - 32.), "dyadic")
+    }
+    1 => {
+      let a = rng.range(1.0e15, 1.4e15);
+      (a, a + rng.range(1e12, 2e14), "freq")
+    }
+    2 => {
+      let a = rng.range(-10., 10.);
+      (a, a - rng.range(0.01, 20.), "desc")
+    }
+    3 => (-1., 1., "unit"),
+    _ => {
+      let a = rng.range(0.4e-6, 3e-6);
+      (a, a + rng.range(1e-9, 400e-9), "wavelength")
+    }
+  }
+}
+
+fn trees_mode(rng: &mut Rng, n: usize, thorough: bool) {
+  let mut memo: Vec<Option<Vec<Tree>>> = vec![];
+  let mut root = 0usize;
+  let exhaustive_max = if thorough { 8 } else { 7 };
+  // ---- 1-D: all proper trees for short ranges
+  for len in 0..=exhaustive_max {
+    for rep in 0..2 {
+      let (s, e, cls) = roots1d(rng, rep * 3 + len);
+      let seq: Vec<f64> = Steps(s, e, len).into_iter().collect();
+      emit(json!({"kind": "root1d", "root": root, "cls": cls, "s": fx(s), "e": fx(e), "n": len, "seq": fxs(&seq), "mode": "all"}));
+      let trees = all_trees(len, &mut memo);
+      for (i, t) in trees.iter().enumerate() {
+        emit_tree1d(root, s, e, len, t, i % 7 == 3, i % 5 == 0);
+      }
+      root += 1;
+    }
+  }
+  // ---- 1-D: every single split and every two-level tree shape sampled, lengths up to 64
+  for len in 2..=64usize {
+    let (s, e, cls) = roots1d(rng, len);
+    let seq: Vec<f64> = Steps(s, e, len).into_iter().collect();
+    emit(json!({"kind": "root1d", "root": root, "cls": cls, "s": fx(s), "e": fx(e), "n": len, "seq": fxs(&seq), "mode": "single+double"}));
+    for k in 1..=len {
+      // k = len: empty right half (admissible for this producer; rayon's `take`/`skip` adaptors produce it)
+      emit_tree1d(root, s, e, len, &Tree::Node(k, Box::new(Tree::Leaf), Box::new(Tree::Leaf)), false, k % 9 == 1);
+    }
+    for _ in 0..(if thorough { 24 } else { 6 }) {
+      let k = 1 + rng.below(len - 1);
+      let l = if k >= 2 { Tree::Node(1 + rng.below(k - 1), Box::new(Tree::Leaf), Box::new(Tree::Leaf)) } else { Tree::Leaf };
+      let r = if len - k >= 2 { Tree::Node(1 + rng.below(len - k - 1), Box::new(Tree::Leaf), Box::new(Tree::Leaf)) } else { Tree::Leaf };
+      emit_tree1d(root, s, e, len, &Tree::Node(k, Box::new(l), Box::new(r)), rng.coin(), false);
+    }
+    for threads in [1usize, 2, 3, 4, 8, 16] {
+      emit_tree1d(root, s, e, len, &rayon_like(len, threads), false, false);
+    }
+    root += 1;
+  }
+  // ---- 1-D: random deep trees on long ranges
+  for i in 0..(3 * n) {
+    let len = match i % 3 {
+      0 => 10000,
+      1 => 65 + rng.below(1000),
+      _ => 1000 + rng.below(9000),
+    };
+    let (s, e, cls) = roots1d(rng, i);
+    let seq: Vec<f64> = Steps(s, e, len).into_iter().collect();
+    emit(json!({"kind": "root1d", "root": root, "cls": cls, "s": fx(s), "e": fx(e), "n": len, "seq": fxs(&seq), "mode": "random"}));
+    for j in 0..3 {
+      let depth = 6 + rng.below(8);
+      let t = if j == 2 { rayon_like(len, 16 << rng.below(4)) } else { random_tree(rng, len, depth, 1, j == 1) };
+      emit_tree1d(root, s, e, len, &t, j == 1, j == 0);
+    }
+    root += 1;
+  }
+  // ---- 2-D: all proper trees for small grids
+  let shapes: &[(usize, usize)] = if thorough { &[(0, 0), (0, 3), (1, 1), (2, 1), (1, 3), (2, 2), (5, 1), (2, 3), (3, 2), (7, 1), (2, 4), (4, 2)] }
+                                  else { &[(0, 0), (0, 3), (1, 1), (2, 1), (1, 3), (2, 2), (2, 3), (3, 2), (7, 1)] };
+  for (nx, ny) in shapes {
+    let (x0, x1, _) = roots1d(rng, nx + ny);
+    let (y0, y1, _) = roots1d(rng, nx * 3 + 1);
+    let x = (x0, x1, *nx);
+    let y = (y0, y1, *ny);
+    let seq: Vec<(f64, f64)> = Steps2D(x, y).into_iter().collect();
+    emit(json!({"kind": "root2d", "root": root, "x0": fx(x0), "x1": fx(x1), "nx": nx, "y0": fx(y0), "y1": fx(y1), "ny": ny, "seq": flat(&seq), "mode": "all"}));
+    let trees = all_trees(nx * ny, &mut memo);
+    for (i, t) in trees.iter().enumerate() {
+      emit_tree2d(root, x, y, t, i % 7 == 3, i % 5 == 0, &seq, true);
+    }
+    // degenerate split points 0 and len are admissible for the 2-D producer
+    let len = nx * ny;
+    for t in [Tree::Node(0, Box::new(Tree::Leaf), Box::new(Tree::Leaf)), Tree::Node(len, Box::new(Tree::Leaf), Box::new(Tree::Leaf)),
+              Tree::Node(0, Box::new(Tree::Leaf), Box::new(Tree::Node(len, Box::new(Tree::Leaf), Box::new(Tree::Leaf))))] {
+      emit_tree2d(root, x, y, &t, false, true, &seq, true);
+    }
+    root += 1;
+  }
+  // ---- 2-D: single splits for every flat length up to 64, random trees on long grids
+  for (nx, ny) in [(8usize, 8usize), (64, 1), (1, 64), (9, 7), (5, 12)] {
+    let (x0, x1, _) = roots1d(rng, nx);
+    let (y0, y1, _) = roots1d(rng, ny + 2);
+    let x = (x0, x1, nx);
+    let y = (y0, y1, ny);
+    let seq: Vec<(f64, f64)> = Steps2D(x, y).into_iter().collect();
+    emit(json!({"kind": "root2d", "root": root, "x0": fx(x0), "x1": fx(x1), "nx": nx, "y0": fx(y0), "y1": fx(y1), "ny": ny, "seq": flat(&seq), "mode": "single"}));
+    for k in 0..=(nx * ny) {
+      emit_tree2d(root, x, y, &Tree::Node(k, Box::new(Tree::Leaf), Box::new(Tree::Leaf)), false, k % 9 == 1, &seq, true);
+    }
+    root += 1;
+  }
+  for i in 0..(3 * n) {
+    let (nx, ny) = match i % 3 {
+      0 => (100, 100),
+      1 => (1 + rng.below(300), 1 + rng.below(30)),
+      _ => (1 + rng.below(30), 1 + rng.below(300)),
+    };
+    let (x0, x1, _) = roots1d(rng, i);
+    let (y0, y1, _) = roots1d(rng, i + 1);
+    let x = (x0, x1, nx);
+    let y = (y0, y1, ny);
+    let seq: Vec<(f64, f64)> = Steps2D(x, y).into_iter().collect();
+    // the sequence itself is not printed for long grids; the comparison with it is reduced to the differing positions
+    emit(json!({"kind": "root2d", "root": root, "x0": fx(x0), "x1": fx(x1), "nx": nx, "y0": fx(y0), "y1": fx(y1), "ny": ny, "seq": Value::Null, "seq_len": seq.len(), "mode": "random"}));
+    for j in 0..3 {
+      let depth = 6 + rng.below(8);
+      let t = if j == 2 { rayon_like(nx * ny, 16 << rng.below(4)) } else { random_tree(rng, nx * ny, depth, if j == 1 { 0 } else { 1 }, j == 1) };
+      emit_tree2d(root, x, y, &t, j == 1, true, &seq, false);
+    }
+    root += 1;
+  }
+  // ---- information only: adaptors that call ExactSizeIterator::len() on a partially consumed iterator (std's Zip::next_back,
+  //      reached through rayon's enumerate().rev()): Iterator1D::len()/Iterator2D::len() keep reporting the length at creation
+  {
+    let r1 = guarded(|| rayon::ThreadPoolBuilder::new().num_threads(1).build().unwrap().install(|| Steps(0., 4., 5).into_par_iter().enumerate().rev().collect::<Vec<(usize, f64)>>()));
+    let r2 = guarded(|| rayon::ThreadPoolBuilder::new().num_threads(1).build().unwrap().install(|| Steps2D((0., 1., 2), (0., 1., 2)).into_par_iter().enumerate().rev().collect::<Vec<(usize, (f64, f64))>>()));
+    emit(json!({"kind": "enum_rev", "one_d": r1.as_ref().ok().map(|v| v.iter().map(|p| json!([p.0, p.1])).collect::<Vec<_>>()), "one_d_panic": r1.err(),
+      "two_d": r2.as_ref().ok().map(|v| v.iter().map(|p| json!([p.0, p.1 .0, p.1 .1])).collect::<Vec<_>>()), "two_d_panic": r2.err()}));
+  }
+  // ---- information only: split_at(0) on the 1-D producer evaluates `index - 1` on usize
+  let r = drive1d(0., 1., 4, &Tree::Node(0, Box::new(Tree::Leaf), Box::new(Tree::Leaf)), false);
+  emit(json!({"kind": "split0_1d", "debug_assertions": cfg!(debug_assertions), "panic": r.as_ref().err().cloned(),
+    "vals": r.ok().map(|l| fxs(&l.iter().flat_map(|x| x.items.iter().cloned()).collect::<Vec<f64>>()))}));
+}
+
+// ------------------------------------------------------------------------------------------------ pools
+
+fn hz(x: f64) -> Frequency {
+  x * RAD / S
+}
+fn fv(x: Frequency) -> f64 {
+  *x.value_unsafe()
+}
+fn cx(v: &[Complex<f64>]) -> Value {
+  let mut out = Vec::with_capacity(2 * v.len());
+  for z in v {
+    out.push(fx(z.re));
+    out.push(fx(z.im));
+  }
+  Value::Array(out)
+}
+
+fn ktp() -> SPDC {
+  SPDC::from_json(serde_json::json!({
+    "crystal": {"kind": "KTP", "pm_type": "e->eo", "phi_deg": 0, "theta_deg": 90, "length_um": 14000, "temperature_c": 20},
+    "pump": {"wavelength_nm": 775, "waist_um": 200, "bandwidth_nm": 0.5, "average_power_mw": 300},
+    "signal": {"wavelength_nm": 1550, "phi_deg": 0, "theta_external_deg": 0, "waist_um": 100, "waist_position_um": "auto"},
+    "idler": "auto",
+    "periodic_poling": {"poling_period_um": "auto"},
+    "deff_pm_per_volt": 7.6
+  }))
+  .unwrap()
+}
+
+/// run `f` on a fresh pool of `threads` workers, on its own OS thread, under a time limit.  A time-out is reported
+/// and ends the process (a dead-locked pool cannot be torn down).
+fn on_pool<R: Send + 'static, F: FnOnce() -> R + Send + 'static>(threads: usize, limit_s: u64, what: &str, f: F) -> Option<R> {
+  let (tx, rx) = mpsc::channel();
+  std::thread::spawn(move || {
+    let pool = rayon::ThreadPoolBuilder::new().num_threads(threads).build().unwrap();
+    let r = std::panic::catch_unwind(std::panic::AssertUnwindSafe(|| pool.install(f)));
+    let _ = tx.send(r);
+  });
+  match rx.recv_timeout(Duration::from_secs(limit_s)) {
+    Ok(Ok(r)) => Some(r),
+    Ok(Err(_)) => {
+      emit(json!({"kind": "pool_panic", "threads": threads, "what": what}));
+      None
+    }
+    Err(_) => {
+      emit(json!({"kind": "timeout", "threads": threads, "what": what, "limit_s": limit_s}));
+      std::process::exit(0);
+    }
+  }
+}
+
+fn pools_mode(rng: &mut Rng, n: usize, thorough: bool) {
+  let threads: Vec<usize> = (1..=16).collect();
+  let reps = if thorough { 3 } else { 1 };
+  // grids collected by rayon's own scheduler
+  for case in 0..(2 * n) {
+    let (s, e, _) = roots1d(rng, case);
+    let len = [0usize, 1, 2, 3, 64, 1000, 10000][rng.below(7)];
+    let (y0, y1, _) = roots1d(rng, case + 2);
+    let (nx, ny) = (1 + rng.below(40), 1 + rng.below(40));
+    let seq1: Vec<f64> = Steps(s, e, len).into_iter().collect();
+    let seq2: Vec<(f64, f64)> = Steps2D((s, e, nx), (y0, y1, ny)).into_iter().collect();
+    emit(json!({"kind": "pool_grid_ref", "case": case, "s": fx(s), "e": fx(e), "n": len, "seq1": fxs(&seq1), "nx": nx, "ny": ny, "y0": fx(y0), "y1": fx(y1), "seq2": flat(&seq2)}));
+    for &t in &threads {
+      for rep in 0..reps {
+        let r = on_pool(t, 120, "grid collect", move || {
+          let a: Vec<f64> = Steps(s, e, len).into_par_iter().collect();
+          let b: Vec<(f64, f64)> = Steps2D((s, e, nx), (y0, y1, ny)).into_par_iter().collect();
+          let c: Vec<(usize, f64)> = Steps(s, e, len).into_par_iter().enumerate().collect();
+          let d: Vec<(usize, (f64, f64))> = Steps2D((s, e, nx), (y0, y1, ny)).into_par_iter().enumerate().collect();
+          let sum1: f64 = Steps(s, e, len).into_par_iter().sum();
+          let sum2: f64 = Steps2D((s, e, nx), (y0, y1, ny)).into_par_iter().map(|(x, y)| x * y).sum();
+          (a, b, c, d, sum1, sum2)
+        });
+        if let Some((a, b, c, d, sum1, sum2)) = r {
+          let enum1_ok = c.iter().enumerate().all(|(i, p)| p.0 == i) && c.len() == a.len();
+          let enum2_ok = d.iter().enumerate().all(|(i, p)| p.0 == i && i < b.len() && p.1 .0.to_bits() == b[i].0.to_bits() && p.1 .1.to_bits() == b[i].1.to_bits()) && d.len() == b.len();
+          let e1: Vec<f64> = c.iter().map(|p| p.1).collect();
+          emit(json!({"kind": "pool_grid", "case": case, "threads": t, "rep": rep, "v1": fxs(&a), "v2": flat(&b), "enum1_ok": enum1_ok, "enum1_vals": fxs(&e1),
+            "enum2_ok": enum2_ok, "sum1": fx(sum1), "sum2": fx(sum2)}));
+        }
+      }
+    }
+  }
+  // quadrature: Simpson (parallel above 128 slices), 2-D Simpson (nested parallel 1-D ranges)
+  for case in 0..(2 * n) {
+    let divs = [130usize, 200, 256, 1000][rng.below(4)];
+    let divs2 = [4usize, 10, 50, 100][rng.below(4)];
+    let (a, b) = (rng.range(-2., 0.), rng.range(0.5, 3.));
+    let w = rng.range(0.5, 4.);
+    for &t in &threads {
+      let r = on_pool(t, 120, "integrate", move || {
+        let i1 = Integrator::Simpson { divs }.integrate(|x| Complex::new((w * x).cos() * (-x * x).exp(), (w * x).sin()), a, b);
+        let i2 = Integrator::Simpson { divs: divs2 }.integrate2d(|x, y| Complex::new((w * x + y).cos(), x * y), a, b, -1., 1.);
+        (i1, i2)
+      });
+      if let Some((i1, i2)) = r {
+        emit(json!({"kind": "pool_quad", "case": case, "threads": t, "divs": divs, "divs2": divs2, "a": fx(a), "b": fx(b), "w": fx(w), "i1": cx(&[i1]), "i2": cx(&[i2])}));
+      }
+    }
+  }
+  // spectra, counts, HOM
+  for case in 0..n.min(if thorough { 4 } else { 2 }) {
+    let res = 6 + 2 * rng.below(3) + if thorough { 6 } else { 0 };
+    let seq_divs = 10 + 2 * rng.below(4);
+    for &t in &threads {
+      let r = on_pool(t, 300, "spectrum/counts/hom", move || {
+        let spdc = if case % 2 == 0 { SPDC::default() } else { ktp() };
+        let range = spdc.optimum_range(res);
+        let integ = Integrator::Simpson { divs: seq_divs }; // sequential quadrature inside each point
+        let sp = spdc.joint_spectrum(integ);
+        let jsa = sp.jsa_range(range);
+        let jsi: Vec<f64> = sp.jsi_range(range).iter().map(|x| *x.value_unsafe()).collect();
+        let jsi_ws: Vec<f64> = sp.jsi_range(range.as_wavelength_space()).iter().map(|x| *x.value_unsafe()).collect();
+        let jsi_sd: Vec<f64> = sp.jsi_normalized_range(range.as_sum_diff_space());
+        let jsis: Vec<f64> = sp.jsi_singles_range(range).iter().map(|x| *x.value_unsafe()).collect();
+        let cc = *(spdc.counts_coincidences(range, integ).value_unsafe());
+        let cs = *(spdc.counts_singles_signal(range, integ).value_unsafe());
+        let ci = *(spdc.counts_singles_idler(range, integ).value_unsafe());
+        let swapped: Vec<Complex<f64>> = range.as_steps().into_iter().map(|(ws, wi)| sp.jsa(wi, ws)).collect();
+        let dt = spdcalc::hom_time_delay(&spdc);
+        let hom0 = spdcalc::hom_rate(range, &jsa, &swapped, dt, None);
+        let hom1 = spdcalc::hom_rate(range, &jsa, &swapped, dt + 1e-13 * S, None);
+        let (_, vis) = spdc.hom_visibility(range, integ);
+        // a parallel quadrature inside the parallel grid evaluation
+        let sp_par = spdc.joint_spectrum(Integrator::Simpson { divs: 130 });
+        let jsi_nested: Vec<f64> = sp_par.jsi_range(range).iter().map(|x| *x.value_unsafe()).collect();
+        (jsa, jsi, jsi_ws, jsi_sd, jsis, cc, cs, ci, hom0, hom1, vis, jsi_nested)
+      });
+      if let Some((jsa, jsi, jsi_ws, jsi_sd, jsis, cc, cs, ci, hom0, hom1, vis, jsi_nested)) = r {
+        emit(json!({"kind": "pool_spdc", "case": case, "threads": t, "res": res, "jsa": cx(&jsa), "jsi": fxs(&jsi), "jsi_ws": fxs(&jsi_ws), "jsi_sd": fxs(&jsi_sd),
+          "jsis": fxs(&jsis), "cc": fx(cc), "cs": fx(cs), "ci": fx(ci), "hom0": fx(hom0), "hom1": fx(hom1), "vis": fx(vis), "jsi_nested": fxs(&jsi_nested)}));
+      }
+    }
+  }
+}
+
+pub fn run(args: &[String]) {
+  let seed = arg_u64(args, 0, 1);
+  let n = arg_u64(args, 1, 2) as usize;
+  let mode = args.get(2).map(|s| s.as_str()).unwrap_or("all");
+  let thorough = args.get(3).map(|s| s == "thorough").unwrap_or(false);
+  let mut rng = Rng::new(seed);
+  if mode == "trees" || mode == "all" {
+    trees_mode(&mut rng, n, thorough);
+  }
+  if mode == "pools" || mode == "all" {
+    pools_mode(&mut rng, n, thorough);
+  }
+  emit(json!({"kind": "done", "mode": mode}));
 }
